@@ -221,6 +221,21 @@ pub mod wt {
         ecs_archetype!(ArchTok, Tok, Zt);
     }
 
+    /// A user type with a user-written conversion into the component tuple; the conversion is
+    /// user code that may panic, so it calls the C10 inspection callback when one is installed.
+    pub struct Lazy(pub u8);
+    pub static mut ON_CONVERT: Option<unsafe fn()> = None;
+    impl From<Lazy> for ArchTokComponents {
+        fn from(l: Lazy) -> Self {
+            unsafe {
+                if let Some(f) = ON_CONVERT {
+                    f();
+                }
+            }
+            ArchTokComponents { tok: Tok(l.0), zt: Zt }
+        }
+    }
+
     crate::model_arch!(
         TokM, WT, |cap| WT::with_capacity(WTCapacity { arch_tok: cap }),
         ArchTok, arch_tok, 9, 2, 0,
